@@ -2,6 +2,7 @@
 from __future__ import annotations
 
 import base64
+import copy
 import io
 import itertools
 import os
@@ -382,7 +383,11 @@ def run(chk: lib.Check):
                      uu + ".SVG": b"<svg>upper</svg>", uu: b"<svg>noext</svg>", uu + ".svgz": b"z", uu[:-1] + ".svg": b"<svg>short</svg>",
                      uu + ".datauri_svg": b"no", uu + ".html": b"no"}
         bits = list(file_content)     # 4 bits + 1 bit for the unrelated group
-        WAYS = ["path", "url", "dict", "handler", "same"] + ([] if quick else ["pathlike", "local-handler"])
+        ALL_WAYS = ["path", "url", "dict", "handler", "same", "modelinfo", "dict-kwargs", "pathlike", "local-handler", "same-handler"]
+        WAYS = ALL_WAYS[:5] if quick else ALL_WAYS                      # all 32 file subsets on the first model built from the specification
+        REPEAT_ONLY = [w for w in ALL_WAYS if w not in WAYS]            # the REPEAT_MASKS subsets only
+        REPEAT_MASKS = [0, 1, 6, 31]                                    # second and third model from the same specification object
+        repeat_stats: dict[str, int] = {}
 
         # runtime chains by own walk (for the oracle), with the names the entry table gives them
         obj_entry = {obj: name for name, obj in G["entries"].items()}
@@ -405,10 +410,156 @@ def run(chk: lib.Check):
                 opened_log.append(str(filename))
             return orig_local_open(self, filename, mode)
 
-        for way in WAYS:
+        def exercise(model, way, allow, rh, target_dir, masks, load):
+            subj = [model.diagrams[ia], model.diagrams[ib]]
+            assert subj[0].uuid == uu and subj[1].uuid == other
+            base_listing = set(os.listdir(target_dir))
+            for mask in masks:
+                present = {n: file_content[n] for j, n in enumerate(bits) if mask >> j & 1}
+                if mask >> 4 & 1:
+                    present.update(unrelated)
+                if rh is not None:
+                    rh.files = dict(present)
+                else:
+                    for n in set(os.listdir(target_dir)) - base_listing:
+                        (target_dir / n).unlink()
+                    for n, c in present.items():
+                        (target_dir / n).write_bytes(c)
+                # what the model is told: every file visible through the handler
+                visible = dict(present)
+                if way in ("same", "same-handler"):
+                    for n in base_listing:
+                        if (target_dir / n).is_file():
+                            visible[n] = b"model-file"
+                for dg in subj:
+                    for fmt in fmts:
+                        if rh is not None:
+                            rh.opened = []
+                        opened_log.clear()
+                        watch["h"] = model.diagram_cache if rh is None else None
+                        fhlocal.LocalFileHandler.open = rec_local_open
+                        try:
+                            res = outcome(lambda: dg.render(fmt))
+                        finally:
+                            fhlocal.LocalFileHandler.open = orig_local_open
+                        opened = list(rh.opened) if rh is not None else list(opened_log)
+                        # ---- symbolic form of the result: ["S"|"B", file name] = text / bytes of a cached file
+                        S.sources = {}
+                        for n, c in present.items():
+                            S.sources[("b", c)] = ["B", n]
+                            try:
+                                S.sources[("s", c.decode("utf-8"))] = ["S", n]
+                            except UnicodeDecodeError:
+                                pass
+                        fr_svg = fresh[dg.uuid, "svg"]
+                        if isinstance(fr_svg, str):
+                            S.sources[("s", fr_svg)] = [ids["SVGFormat"], [ids["convert_svgdiagram"], b"fresh"]]
+                        if isinstance(res, Err):
+                            sres = res
+                        elif fmt is None:
+                            sres = b"fresh" if type(res).__name__ == "Diagram" else "not-a-diagram"
+                        elif type(res).__name__ == "SVGDiagram":
+                            sres = [ids["convert_svgdiagram"], b"fresh"]
+                        else:
+                            sres = S.sym(res)
+                        # ---- independent oracle
+                        key = f"{way}:allow={allow}:fmt={fmt}:dg={'A' if dg.uuid == uu else 'B'}:files={sorted(present)}" + (f":load={load}" if load > 1 else "")
+                        replay = {"way": way, "load_number_from_the_same_specification_object": load, "fallback_render_aird": allow, "fmt": fmt, "diagram_uuid": dg.uuid,
+                                  "cache_files": {n: c.decode('latin-1') for n, c in present.items()},
+                                  "opened": opened, "result": repr(res)[:300]}
+                        exp_open: list[str] = []
+                        if fmt is None:
+                            kind = "no-format"
+                            ok = type(res).__name__ == "Diagram"
+                            exp_desc = "the Diagram object"
+                        elif fmt not in rt_names:
+                            kind = "unknown-format"
+                            ok = res == Err("ValueError")
+                            exp_desc = "UnknownOutputFormat"
+                        else:
+                            chain = own_chain(fmt)
+                            hit = None
+                            for i, cv in enumerate(chain):
+                                e = getattr(cv, "filename_extension", None)
+                                if e and hasattr(cv, "from_cache"):
+                                    exp_open.append(dg.uuid + e)
+                                    if dg.uuid + e in visible:
+                                        hit = (i, cv, dg.uuid + e)
+                                        break
+                            if hit:
+                                i, cv, fn = hit
+                                # expected symbolic value: converters before the hit applied to the file's content
+                                exp_sym = [{".svg": "S", ".png": "B"}.get(getattr(cv, "filename_extension", ""), "?"), fn]
+                                for c2 in reversed(chain[:i]):
+                                    exp_sym = [ids[c2.__name__], exp_sym]
+                                kind = "hit"
+                                ok = sres == exp_sym
+                                exp_desc = f"{fn} converted through {[c2.__name__ for c2 in reversed(chain[:i])]}"
+                                # "identical to converting that cached file directly"
+                                srcname = obj_entry.get(cv.__name__)
+                                if srcname is not None:
+                                    direct = outcome(lambda: D.convert_format(srcname, fmt, cv.from_cache(visible[fn])))
+                                    same = (direct == res) if not isinstance(res, Err) else (isinstance(direct, Err) and direct == res)
+                                    if not same:
+                                        ok = False
+                                        exp_desc += f"; convert_format({srcname},{fmt}) gives {direct!r:.80}"
+                                if isinstance(res, Err):
+                                    kind = "convert-error"
+                            elif allow:
+                                kind = "miss-fallback"
+                                fr = fresh[dg.uuid, fmt]
+                                ok = (res == fr) if not (isinstance(fr, Err) or isinstance(res, Err)) else (isinstance(fr, Err) and isinstance(res, Err) and fr == res)
+                                if type(fr).__name__ == "SVGDiagram":
+                                    ok = type(res).__name__ == "SVGDiagram"
+                                exp_desc = "the same as rendering without a cache"
+                            else:
+                                kind = "miss-error"
+                                ok = res == Err("RuntimeError")
+                                exp_desc = "RuntimeError (not in cache)"
+                        stats[kind] += 1
+                        foreign = [n for n in opened if not n.startswith(dg.uuid)]
+                        if not ok or opened != exp_open or foreign:
+                            chk.violation(key, f"render({fmt!r}) of {dg.uuid} with cache {sorted(present)} ({way}, fallback={allow}) "
+                                          f"opened {opened} and returned {res!r:.120}; expected to open {exp_open} and return {exp_desc}", replay)
+                        chk.note_case(key, nontrivial=bool(present) and fmt in rt_names)
+                        # ---- case for the model (a file's content is represented by its name)
+                        ftag = lambda n: b"f%d" % sorted(visible).index(n)      # short stand-in for the file's content
+                        mres = to_model(sres, ids, ftag)
+                        fr_in = fresh[dg.uuid, None]
+                        rcases.append(([fmt, [[n, ftag(n)] for n in sorted(visible)], allow, dg.uuid, [], [],
+                                        b"fresh" if not isinstance(fr_in, Err) else fr_in], [opened, mres]))
+                        rdesc.append({"way": way, "allow": allow, "fmt": fmt, "files": sorted(present), "diagram": dg.uuid})
+                # as_<fmt> attribute access agrees with render() whenever render() returns
+                for fmt in (rt_names if mask in (0, 1, 2, 5, 12, 31) and load == 1 and len(masks) == 32 else []):
+                    dg = subj[0]
+                    r1 = outcome(lambda: dg.render(fmt))
+                    r2 = outcome(lambda: getattr(dg, "as_" + fmt))
+                    if not isinstance(r1, Err) and type(r1).__name__ != "SVGDiagram" and r1 != r2:
+                        chk.violation(f"as_{fmt}:{way}:{mask}", f"as_{fmt} differs from render({fmt!r})", {"fmt": fmt, "way": way, "files": sorted(present)})
+                    if isinstance(r1, Err) and not isinstance(r2, Err) and fmt in ("svg", "png"):
+                        # the documented error image; it must not be anybody's cached file
+                        for n, c in visible.items():
+                            if (r2 if isinstance(r2, bytes) else str(r2).encode()) == c:
+                                chk.violation(f"as_{fmt}-foreign:{way}:{mask}", f"as_{fmt} returned the content of {n} although render() failed",
+                                              {"fmt": fmt, "way": way, "files": sorted(present)})
+            # clean up the target dir for the next model
+            if rh is None:
+                for n in set(os.listdir(target_dir)) - base_listing:
+                    (target_dir / n).unlink()
+
+        def spec_state(o):
+            """what a specification object looks like from outside (the handler classes of the harness own `files`/`opened`)"""
+            if isinstance(o, fhabc.FileHandler):
+                return (type(o).__name__, sorted((k, repr(v)) for k, v in vars(o).items() if k not in ("files", "opened")))
+            if isinstance(o, dict):
+                return {k: spec_state(v) for k, v in o.items()}
+            return copy.deepcopy(o)
+
+        for way in WAYS + REPEAT_ONLY:
             for allow in (False, True):
-                target_dir = mdir if way == "same" else cdir
+                target_dir = mdir if way in ("same", "same-handler") else cdir
                 rh = None
+                args, kw = (aird,), {"fallback_render_aird": allow}
                 if way == "path":
                     spec = str(cdir)
                 elif way == "pathlike":
@@ -417,153 +568,48 @@ def run(chk: lib.Check):
                     spec = cdir.as_uri()
                 elif way == "dict":
                     spec = {"path": str(cdir)}
+                elif way == "dict-kwargs":          # a mapping with further handler arguments
+                    spec = {"path": str(tmp), "subdir": cdir.name}
+                elif way == "modelinfo":            # a model-info mapping (capellambse.loadinfo / a JSON file), expanded with **
+                    spec = {"path": aird, "diagram_cache": {"path": str(cdir)}, "fallback_render_aird": allow}
+                    args, kw = (), spec
                 elif way == "handler":
                     spec = rh = RecHandler({})
                 elif way == "local-handler":
                     spec = fhlocal.LocalFileHandler(cdir)
+                elif way == "same-handler":         # one handler instance is the model's location and the cache
+                    spec = fhlocal.LocalFileHandler(mdir)
+                    args, kw = (spec,), {"entrypoint": AIRD, "fallback_render_aird": allow}
                 else:
                     spec = aird
-                model = capellambse.MelodyModel(aird, diagram_cache=spec, fallback_render_aird=allow)
-                if model.diagram_cache is None:
-                    chk.broken.append(f"harness: way {way} produced no diagram cache")
-                    continue
-                subj = [model.diagrams[ia], model.diagrams[ib]]
-                assert subj[0].uuid == uu and subj[1].uuid == other
-                base_listing = set(os.listdir(target_dir))
-                for mask in range(32):
-                    present = {n: file_content[n] for j, n in enumerate(bits) if mask >> j & 1}
-                    if mask >> 4 & 1:
-                        present.update(unrelated)
-                    if rh is not None:
-                        rh.files = dict(present)
-                    else:
-                        for n in set(os.listdir(target_dir)) - base_listing:
-                            (target_dir / n).unlink()
-                        for n, c in present.items():
-                            (target_dir / n).write_bytes(c)
-                    # what the model is told: every file visible through the handler
-                    visible = dict(present)
-                    if way == "same":
-                        for n in base_listing:
-                            if (target_dir / n).is_file():
-                                visible[n] = b"model-file"
-                    for dg in subj:
-                        for fmt in fmts:
-                            if rh is not None:
-                                rh.opened = []
-                            opened_log.clear()
-                            watch["h"] = model.diagram_cache if rh is None else None
-                            fhlocal.LocalFileHandler.open = rec_local_open
-                            try:
-                                res = outcome(lambda: dg.render(fmt))
-                            finally:
-                                fhlocal.LocalFileHandler.open = orig_local_open
-                            opened = list(rh.opened) if rh is not None else list(opened_log)
-                            # ---- symbolic form of the result: ["S"|"B", file name] = text / bytes of a cached file
-                            S.sources = {}
-                            for n, c in present.items():
-                                S.sources[("b", c)] = ["B", n]
-                                try:
-                                    S.sources[("s", c.decode("utf-8"))] = ["S", n]
-                                except UnicodeDecodeError:
-                                    pass
-                            fr_svg = fresh[dg.uuid, "svg"]
-                            if isinstance(fr_svg, str):
-                                S.sources[("s", fr_svg)] = [ids["SVGFormat"], [ids["convert_svgdiagram"], b"fresh"]]
-                            if isinstance(res, Err):
-                                sres = res
-                            elif fmt is None:
-                                sres = b"fresh" if type(res).__name__ == "Diagram" else "not-a-diagram"
-                            elif type(res).__name__ == "SVGDiagram":
-                                sres = [ids["convert_svgdiagram"], b"fresh"]
-                            else:
-                                sres = S.sym(res)
-                            # ---- independent oracle
-                            key = f"{way}:allow={allow}:fmt={fmt}:dg={'A' if dg.uuid == uu else 'B'}:files={sorted(present)}"
-                            replay = {"way": way, "fallback_render_aird": allow, "fmt": fmt, "diagram_uuid": dg.uuid,
-                                      "cache_files": {n: c.decode('latin-1') for n, c in present.items()},
-                                      "opened": opened, "result": repr(res)[:300]}
-                            exp_open: list[str] = []
-                            if fmt is None:
-                                kind = "no-format"
-                                ok = type(res).__name__ == "Diagram"
-                                exp_desc = "the Diagram object"
-                            elif fmt not in rt_names:
-                                kind = "unknown-format"
-                                ok = res == Err("ValueError")
-                                exp_desc = "UnknownOutputFormat"
-                            else:
-                                chain = own_chain(fmt)
-                                hit = None
-                                for i, cv in enumerate(chain):
-                                    e = getattr(cv, "filename_extension", None)
-                                    if e and hasattr(cv, "from_cache"):
-                                        exp_open.append(dg.uuid + e)
-                                        if dg.uuid + e in visible:
-                                            hit = (i, cv, dg.uuid + e)
-                                            break
-                                if hit:
-                                    i, cv, fn = hit
-                                    # expected symbolic value: converters before the hit applied to the file's content
-                                    exp_sym = [{".svg": "S", ".png": "B"}.get(getattr(cv, "filename_extension", ""), "?"), fn]
-                                    for c2 in reversed(chain[:i]):
-                                        exp_sym = [ids[c2.__name__], exp_sym]
-                                    kind = "hit"
-                                    ok = sres == exp_sym
-                                    exp_desc = f"{fn} converted through {[c2.__name__ for c2 in reversed(chain[:i])]}"
-                                    # "identical to converting that cached file directly"
-                                    srcname = obj_entry.get(cv.__name__)
-                                    if srcname is not None:
-                                        direct = outcome(lambda: D.convert_format(srcname, fmt, cv.from_cache(visible[fn])))
-                                        same = (direct == res) if not isinstance(res, Err) else (isinstance(direct, Err) and direct == res)
-                                        if not same:
-                                            ok = False
-                                            exp_desc += f"; convert_format({srcname},{fmt}) gives {direct!r:.80}"
-                                    if isinstance(res, Err):
-                                        kind = "convert-error"
-                                elif allow:
-                                    kind = "miss-fallback"
-                                    fr = fresh[dg.uuid, fmt]
-                                    ok = (res == fr) if not (isinstance(fr, Err) or isinstance(res, Err)) else (isinstance(fr, Err) and isinstance(res, Err) and fr == res)
-                                    if type(fr).__name__ == "SVGDiagram":
-                                        ok = type(res).__name__ == "SVGDiagram"
-                                    exp_desc = "the same as rendering without a cache"
-                                else:
-                                    kind = "miss-error"
-                                    ok = res == Err("RuntimeError")
-                                    exp_desc = "RuntimeError (not in cache)"
-                            stats[kind] += 1
-                            foreign = [n for n in opened if not n.startswith(dg.uuid)]
-                            if not ok or opened != exp_open or foreign:
-                                chk.violation(key, f"render({fmt!r}) of {dg.uuid} with cache {sorted(present)} ({way}, fallback={allow}) "
-                                              f"opened {opened} and returned {res!r:.120}; expected to open {exp_open} and return {exp_desc}", replay)
-                            chk.note_case(key, nontrivial=bool(present) and fmt in rt_names)
-                            # ---- case for the model (a file's content is represented by its name)
-                            ftag = lambda n: b"f%d" % sorted(visible).index(n)      # short stand-in for the file's content
-                            mres = to_model(sres, ids, ftag)
-                            fr_in = fresh[dg.uuid, None]
-                            rcases.append(([fmt, [[n, ftag(n)] for n in sorted(visible)], allow, dg.uuid, [], [],
-                                            b"fresh" if not isinstance(fr_in, Err) else fr_in], [opened, mres]))
-                            rdesc.append({"way": way, "allow": allow, "fmt": fmt, "files": sorted(present), "diagram": dg.uuid})
-                    # as_<fmt> attribute access agrees with render() whenever render() returns
-                    for fmt in (rt_names if mask in (0, 1, 2, 5, 12, 31) else []):
-                        dg = subj[0]
-                        r1 = outcome(lambda: dg.render(fmt))
-                        r2 = outcome(lambda: getattr(dg, "as_" + fmt))
-                        if not isinstance(r1, Err) and type(r1).__name__ != "SVGDiagram" and r1 != r2:
-                            chk.violation(f"as_{fmt}:{way}:{mask}", f"as_{fmt} differs from render({fmt!r})", {"fmt": fmt, "way": way, "files": sorted(present)})
-                        if isinstance(r1, Err) and not isinstance(r2, Err) and fmt in ("svg", "png"):
-                            # the documented error image; it must not be anybody's cached file
-                            for n, c in visible.items():
-                                if (r2 if isinstance(r2, bytes) else str(r2).encode()) == c:
-                                    chk.violation(f"as_{fmt}-foreign:{way}:{mask}", f"as_{fmt} returned the content of {n} although render() failed",
-                                                  {"fmt": fmt, "way": way, "files": sorted(present)})
-                # clean up the target dir for the next model
-                if rh is None:
-                    for n in set(os.listdir(target_dir)) - base_listing:
-                        (target_dir / n).unlink()
-                del model
-        chk.coverage["render_configurations"] = dict(stats, total=len(rcases), ways=WAYS)
+                if way != "modelinfo":
+                    kw["diagram_cache"] = spec
+                spec_before = spec_state(spec)
+                full = way in WAYS
+                # every specification object is used for a second and a third model (reload after save, several models from one
+                # model-info): each of them must have the cache, and the object must come out of it unchanged
+                for load in (1, 2, 3):
+                    masks = list(range(32)) if (full and load == 1) else REPEAT_MASKS if load == 1 else REPEAT_MASKS[-3:]
+                    try:
+                        model = capellambse.MelodyModel(*args, **kw)
+                    except Exception as e:  # noqa: BLE001
+                        chk.violation(f"load:{way}:load={load}", f"MelodyModel #{load} from the same cache specification ({way}) raises {type(e).__name__}: {e}",
+                                      {"way": way, "load": load, "fallback_render_aird": allow, "specification_before": repr(spec_before)})
+                        break
+                    if spec_state(spec) != spec_before:
+                        chk.violation(f"spec-mutated:{way}", f"loading a model changed the caller's cache specification ({way}): "
+                                      f"{spec_before!r} -> {spec_state(spec)!r}",
+                                      {"way": way, "load": load, "fallback_render_aird": allow, "before": repr(spec_before), "after": repr(spec_state(spec))})
+                    if model.diagram_cache is None:
+                        chk.violation(f"no-cache:{way}:load={load}", f"model #{load} loaded from the same cache specification ({way}: {spec_before!r}) has no diagram cache",
+                                      {"way": way, "load": load, "fallback_render_aird": allow, "specification_now": repr(spec_state(spec))})
+                        continue
+                    exercise(model, way, allow, rh, target_dir, masks, load)
+                    del model
+                    repeat_stats[way] = repeat_stats.get(way, 0) + 1
+
+        chk.coverage["render_configurations"] = dict(stats, total=len(rcases), ways=WAYS, ways_repeat_masks_only=REPEAT_ONLY,
+                                                     models_built_per_way_from_one_specification_object=repeat_stats)
         lap("render-impl")
         n_render = len(rcases)
         seen_r, uc, ud = set(), [], []
